@@ -31,7 +31,7 @@ CLAIMED["C11"] = (
     "(normal/reversed sub-register order) registers against one abstract bit-vector view, and the frame obligation 'get_registers does "
     "not change the object' are discharged for all values. Layouts are enumerated: quick = 44 boundary-rich (offset,width) pairs in a "
     "32-bit register + boundary pairs at 8/16/64 bits, thorough = all 528 pairs; groups of 2/3 x 32 bits; reversed registers 8..64 bits. "
-    "Config/YAML/string paths and export/parse of register files are not covered deductively here (see C12). Widened: grouped registers with alternative widths (a shorter value replaces the whole register).",
+    "Config/YAML/string paths and export/parse of register files are not covered deductively here (see C12). Widened: grouped registers with alternative widths (a shorter value replaces the whole register). Widened (round 3): byte-reversed registers of 24 and 48 bits (widths that are not a multiple of 32).",
     "Trusted: A-enc, A-smt, A-struct (from_bytes(to_bytes(v)) = v positional-notation identities), layouts outside the enumerated set "
     "(symbolic offset/width arithmetic is not decided by z3: stated in DESIGN 7 C11).",
     "DESIGN.md 7 C11")
@@ -40,7 +40,7 @@ CLAIMED["C19"] = (
     "bitwise, size suffixes, comparisons, logical operators, parentheses, address ranges) is a unit located by its production string and "
     "proved to return what the language semantics prescribe for all operand values; unsupported constructs (sizeof, if/else) are proved to "
     "raise; the precedence table is a data obligation against the documented C-like table; SB21Helper._fill_memory is proved to produce one "
-    "FILL command with the given address, the whole range length and the pattern as written. Lexing and the LALR automaton are external (sly). Widened: && and || on C-like truth values (any integer operands).",
+    "FILL command with the given address, the whole range length and the pattern as written. Lexing and the LALR automaton are external (sly). Widened: && and || on C-like truth values (any integer operands). Added (round 3): SB21Helper._load for file data with a memory option - device id / group of the statement in the LOAD command's flags.",
     "Trusted: A-sly (sly builds the parser the grammar strings and precedence denote and calls exactly the action of each production), A-enc, "
     "A-smt. Symbol tables, sources, key blobs and the remaining statement actions are covered by the bounded seeded-program sweep only.",
     "DESIGN.md 7 C19")
@@ -49,7 +49,7 @@ CLAIMED["C17"] = (
     "(SBV2xAdvancedParams, OTFAD KeyBlob, BEE KIB, the MBI counter-IV accessor, random_bytes itself), the postcondition 'if the caller gave "
     "none, the field holds a value drawn during this call' — discharged from the real constructor bodies; data obligations state that the "
     "BootImageV20/V21 default for advanced_params and the MBI class-level member are not definition-time objects. IEE/BEE region/HAB "
-    "constructors and the config-file paths are covered only by the bounded two-artifact comparison and the definition-time randomness scan. Added: IeeKeyBlob.__init__ (keys given or drawn inside the call, sizes per mode), Mbi_MixinCtrInitVector.mix_load_from_config (no IV in the configuration = a new one, whatever the object held).",
+    "constructors and the config-file paths are covered only by the bounded two-artifact comparison and the definition-time randomness scan. Added: IeeKeyBlob.__init__ (keys given or drawn inside the call, sizes per mode), Mbi_MixinCtrInitVector.mix_load_from_config (no IV in the configuration = a new one, whatever the object held). Added (round 3): CsfHabSegment.get_dek_from_config - the DEK is drawn inside the call unless the configuration requests reuse, whatever key file an earlier build left (configuration and file-system front end assumed).",
     "Trusted: A-rng (the OS generator is fresh per call and per process; nothing is claimed across interpreter restarts beyond that), A-enc, A-smt.",
     "DESIGN.md 7 C17")
 CLAIMED["C18"] = (
@@ -77,7 +77,7 @@ CLAIMED["C05"] = (
     "recomputed from scratch: independent of the export history), get_cmd_blocks_to_export (ceil(len/256) blocks of exactly 256 bytes that "
     "concatenate to section header || commands followed by zero padding only — stream ends at every offset mod 256), _process_block and "
     "process_cmd_blocks_to_export (block numbers, block i carries the hash of block i+1, the last block carries zeros also on a second export, "
-    "final hash = hash of block 1, payloads in order) are discharged for 1..3 data blocks with symbolic contents; the KDF is proved in C09.",
+    "final hash = hash of block 1, payloads in order) are discharged for 1..3 data blocks with symbolic contents; the KDF is proved in C09. Added: the loader's view of commands - BaseCmd header (tag, address, length, code), ERASE, COPY, FILL_MEMORY words, LOAD (memory block, data as given, zero padding to 16) and LOAD_KEY_BLOB layouts.",
     "Trusted: hash / AES-CBC as uninterpreted functions (A-crypto-fun), A-enc, A-smt, A-struct. Commands are abstract (their own export "
     "formats are not under contract here), block counts > 3, the certificate block (C03) and SecureBinary31.export as a whole are covered by the "
     "bounded independent-loader walk over the repository's example configurations only.",
@@ -107,7 +107,7 @@ CLAIMED["C03"] = (
     "slots in key order, missing slots zero, SHA-256 of the table) for 1..4 keys and RKHTv21.rkth (single hash, or hash of the concatenation) "
     "are discharged. Since each path's result is proved equal to a spec term that mentions only the ordered key numbers, independence from the "
     "signer and agreement between these paths follow. Certificate blocks, PFR ROTKH, DAT RoT meta, AHAB/HAB SRK tables are not under contract "
-    "here (bounded / other properties); key parsing from PEM/DER/certificates is external (A-pki; bounded agreement check). Added: RootKeyRecord.parse (cert block v2.1) - root public key behind the table, one hash per root key, table entries in order, a single P-256 / P-384 root key hashed with SHA-256 / SHA-384 - for 1..4 keys and both curves.",
+    "here (bounded / other properties); key parsing from PEM/DER/certificates is external (A-pki; bounded agreement check). Added: RootKeyRecord.parse (cert block v2.1) - root public key behind the table, one hash per root key, table entries in order, a single P-256 / P-384 root key hashed with SHA-256 / SHA-384 - for 1..4 keys and both curves. Added (round 3, bounded): HAB SRK tables built from fresh P-256/384/521 and RSA-2048 CA certificates, decoded by hand (key-size field, widths, fuse value).",
     "Trusted: hashes as uninterpreted functions, A-pki (cryptography's key parsing), A-enc, A-smt, A-struct.",
     "DESIGN.md 7 C03")
 CLAIMED["C10"] = (
@@ -133,7 +133,7 @@ CLAIMED["C15"] = (
     "it is proved for all contents that the message handed to the signer is exactly credential || LE32(beacon) || [device UUID taken from the "
     "challenge, ECC versions] || challenge vector, and that the exported response is credential || LE32(beacon) || [device UUID] || signature over "
     "that message — so a response is bound to the credential, beacon, device UUID and challenge (injectivity: all parts have fixed or "
-    "credential-determined lengths). 'Never verifies against another challenge' then rests on the signature scheme (not claimed). Added: RotMetaRSA.export / calculate_hash - the RoT table is four 32-byte slots in key order with missing slots zero and its hash is the image tool's RKTH, for 1..4 keys.",
+    "credential-determined lengths). 'Never verifies against another challenge' then rests on the signature scheme (not claimed). Added: RotMetaRSA.export / calculate_hash - the RoT table is four 32-byte slots in key order with missing slots zero and its hash is the image tool's RKTH, for 1..4 keys. Added (round 3): lemmas joining the DC side (hash of the raw X || Y export) and the image side (RKHT._calc_key_hash) for P-256 / P-384 keys incl. leading-zero coordinates; both callee contracts are re-verified under this property.",
     "Trusted: the signature provider as an uninterpreted function (A-crypto-fun / A-crypto-sec not claimed), A-enc, A-smt, A-struct. The debug "
     "credential classes (export/parse/_get_data_to_sign, RoT meta; RoT hash equality with C03), challenge parsing, EdgeLock-enclave v2 responses "
     "and the YAML front end are NOT under contract.",
@@ -188,7 +188,7 @@ CLAIMED["C07"] = (
     "Everything else of the property - CSF commands and offsets, CMS signatures verified independently, SRK table/fuses, AES-CCM "
     "encryption, parse round trip, DCD/XMCD, the BDT length itself - is NOT decided deductively: a bounded sweep builds authenticated and plain "
     "images (RSA-2048 repository test keys) over three layouts x application lengths dense around the 16 B / 4 KiB boundaries and decodes "
-    "them by hand incl. an independent CMS digest/signature check, labelled bounded. Added: plain-image boot data, IVT / boot-data binary layouts with parse-inverts-export lemmas, SRK table items (ECC P-256/384/521, RSA) export layouts with parse-inverts-export lemmas; bounded: encrypted example image with every MAC length decrypted independently with AES-CCM.",
+    "them by hand incl. an independent CMS digest/signature check, labelled bounded. Added: plain-image boot data, IVT / boot-data binary layouts with parse-inverts-export lemmas, SRK table items (ECC P-256/384/521, RSA) export layouts with parse-inverts-export lemmas; bounded: encrypted example image with every MAC length decrypted independently with AES-CCM. Added later: XMCD header byte layout / parse-inverts-export, SegXMCD.size, CSF Authenticate Data command (append / export: the block list as given, big-endian), MAC structure export / parse; bounded: authenticated image with an XMCD block (signature must cover it).",
     "Trusted: A-enc, A-smt; BinaryImage.__len__/export and align_block through their verified contracts (C16/C20). Not under contract: "
     "CsfHabSegment/BdtHabSegment/Dcd/Xmcd.load_from_config, HabContainer.*, image/segments.py, image/commands.py, crypto/cms.py, secret.py "
     "(A-crypto-fun, A-crypto-sec, A-pki). Encrypted images, ECC keys, SRK tables other than the test table: not exercised even bounded.",
